@@ -284,3 +284,10 @@ mod tests {
         );
     }
 }
+
+#[cfg(a2lfile_verif)]
+pub(crate) mod verif {
+    pub(crate) fn decode_raw_bytes(filedata: &[u8]) -> String {
+        super::decode_raw_bytes(filedata)
+    }
+}
